@@ -19,11 +19,19 @@ RULE = ('one case = one history of mocker operations (add result / error / callb
         '`_request` of a harness-defined sync or async client class. After every call the reply text (strict-decoded), the '
         'ConnectionRefusedError, the passthrough invocation and mocker.calls are compared with a list model of the '
         'statement (rotating per-pair patch lists). Histories of length <= 3 are enumerated over a reduced alphabet, longer '
-        'ones sampled. Distinct = distinct (history, passthrough, client kind).')
+        'ones sampled. A further dimension puts SEVERAL mocker objects into one history (2..3 mockers alive at the same '
+        'time, each patching the `_request` of a client class of its own - sync and async ones, entered as with-blocks or '
+        'by start(), stopped in nested or in any other order; also the two fixtures\' mockers for the requests and the '
+        'aiohttp backend): adds / removes / resets / restarts and calls through each of them over the same and over '
+        'different (endpoint, method) pairs; after EVERY operation the answers of each call and the `calls` records of '
+        'every active mocker are compared with that mocker\'s own model. Distinct = distinct (history, passthrough, client '
+        'kind) resp. (mocker set-up, history).')
 ASSUMPTIONS = [
     'notifications are not generated (the statement speaks of replies carrying the request id)',
     'calls to a method that is not patched are not required to be recorded; only patched calls are compared with mocker.calls',
     'remove / replace are only generated for existing patches and valid indexes',
+    'several mockers at the same time: each patches a client class of its own (two mockers stacked on the SAME target are not '
+    'generated - which of them answers is left open); the records of a mocker that is not active are not judged',
 ]
 SHARDS = {'quick': 4, 'thorough': 16}
 TIMEOUT = {'quick': 400, 'thorough': 2400}
@@ -37,7 +45,12 @@ ANCHORS = [
 FLOORS = {'*': {'op:add': 500, 'op:replace': 50, 'op:remove-method': 50, 'op:remove-endpoint': 30, 'op:reset': 30,
                 'op:call': 500, 'op:batch': 200, 'op:batch-of-one': 50, 'op:replace-negative-index': 20, 'op:restart': 50, 'backend:runs': 12, 'backend:passthrough': 4, 'once-exhausted-inside-batch': 10, 'passthrough': 50, 'refused': 50,
                 'unpatched-method': 50, 'client:sync': 200, 'client:async': 200, 'round-robin>=3': 30, 'callback': 50,
-                'id:falsy': 30, 'configured-error-through-the-client-api': 300, 'calls-through-client-notations': 60, 'notation:batch-getitem': 8, 'configured-error:code-with-a-class-of-its-own': 150}}
+                'id:falsy': 30, 'configured-error-through-the-client-api': 300, 'calls-through-client-notations': 60, 'notation:batch-getitem': 8, 'configured-error:code-with-a-class-of-its-own': 150,
+                'concurrent:histories': 500, 'concurrent:two-mockers-active-at-a-call': 1000, 'concurrent:three-mockers-active-at-a-call': 100,
+                'concurrent:same-pair-patched-on-two-active-mockers': 500, 'concurrent:call-while-same-pair-patched-elsewhere': 300,
+                'concurrent:stop-while-another-active': 200, 'concurrent:reset-while-another-active': 100,
+                'concurrent:records-checked-after-another-mocker-stopped-or-reset': 150, 'concurrent:sync+async': 150,
+                'concurrent:with-block': 200, 'concurrent:non-nested-stop-order': 50, 'concurrent:library-backends': 8}}
 
 ENDPOINTS = ['ep1', 'ep2']
 METHODS = ['ma', 'mb']
@@ -49,6 +62,17 @@ class MSync(clientside.SyncClient):
 
 class MAsync(clientside.AsyncClient):
     pass
+
+
+class MSync2(clientside.SyncClient):
+    pass
+
+
+class MAsync2(clientside.AsyncClient):
+    pass
+
+
+CLIENT_CLASSES = {'MSync': MSync, 'MAsync': MAsync, 'MSync2': MSync2, 'MAsync2': MAsync2}
 
 
 def patch_value(kind, tag):
@@ -386,6 +410,288 @@ def run_backend(ctx, backend, url, passthrough_probe):
             pass
 
 
+# ---- several mockers alive at the same time ------------------------------------------------------------------
+
+class _Model:
+    """list model of ONE mocker: rotating patch lists and the calls it answered"""
+
+    def __init__(self):
+        self.clear()
+
+    def clear(self):
+        self.patches = {ep: {} for ep in ENDPOINTS}
+        self.calls = {ep: {} for ep in ENDPOINTS}
+
+    def patched(self, ep):
+        return any(self.patches[ep].values())
+
+    def answer(self, ep, elems):
+        want = []
+        for m, p, rid in elems:
+            lst = self.patches[ep].get(m)
+            if not lst:
+                want.append({'jsonrpc': '2.0', 'id': rid, 'error': {'code': -32601}})
+                continue
+            patch = lst.pop(0)
+            if not patch['once']:
+                lst.append(patch)
+            want.append(expected_reply(patch, rid, p))
+            a, k = (list(p), {}) if isinstance(p, list) else ([], dict(p))
+            self.calls[ep].setdefault(m, []).append((a, k))
+        return want
+
+
+def _reply_problem(want, doc, single):
+    got = [doc] if single else doc
+    if single != isinstance(doc, dict) or not isinstance(got, list) or len(got) != len(want):
+        return 'reply-shape-wrong'
+    for w, g in zip(want, got):
+        if not isinstance(g, dict) or g.get('jsonrpc') != '2.0':
+            return 'reply-element-malformed'
+        if 'id' not in g or not typed_eq(g['id'], w['id']):
+            return 'reply-id-is-not-the-request-id'
+        if 'error' in w and w['error'].get('code') == -32601:
+            if not isinstance(g.get('error'), dict) or g['error'].get('code') != -32601 or 'result' in g:
+                return 'unpatched-method-not-answered-with-32601'
+        elif not typed_eq({k: v for k, v in g.items() if k != 'id'}, {k: v for k, v in w.items() if k != 'id'}):
+            return 'reply-is-not-the-configured-patch'
+    return None
+
+
+def run_concurrent(ctx, setup, ops):
+    """setup: [[client class name, passthrough], ...] - one mocker per entry; ops address a mocker by its index"""
+    cls = ('concurrent', json.dumps(setup), json.dumps(ops))
+    ctx.hit('concurrent:histories')
+    n = len(setup)
+    real_logs = [[] for _ in range(n)]
+
+    def transport_of(i):
+        def real_transport(text, is_notification, kwargs):
+            real_logs[i].append(text)
+            return json.dumps({'real': [i, len(real_logs[i])]})
+        return real_transport
+
+    is_async = [issubclass(CLIENT_CLASSES[c], clientside.AsyncClient) for c, _ in setup]
+    if len(set(is_async)) == 2:
+        ctx.hit('concurrent:sync+async')
+    clients = [{ep: CLIENT_CLASSES[c](transport_of(i), endpoint=ep) for ep in ENDPOINTS} for i, (c, _) in enumerate(setup)]
+    mockers = [PjRpcMocker(f'{__name__}.{c}._request', passthrough=pt) for c, pt in setup]
+    models = [_Model() for _ in range(n)]
+    active = [False] * n
+    entered = [False] * n             # activated as a with-block (left through __exit__)
+    order = []                        # activation order of the active mockers
+    tag = 0
+    try:
+        for step, op in enumerate(ops):
+            name, i = op[0], op[1]
+            wit = dict(setup=setup, history=ops, step=step)
+            disturbed = None           # what this operation did to ANOTHER mocker's surroundings
+            try:
+                if name == 'start':
+                    if active[i]:
+                        ctx.skip('start-of-an-active-mocker')
+                        continue
+                    if op[2] == 'with':
+                        mockers[i].__enter__()
+                        ctx.hit('concurrent:with-block')
+                    else:
+                        mockers[i].start()
+                    active[i], entered[i] = True, op[2] == 'with'
+                    order.append(i)         # (patches added while the mocker was not active stay: only stop / reset drop them)
+                elif name == 'stop':
+                    if not active[i]:
+                        ctx.skip('stop-of-an-inactive-mocker')
+                        continue
+                    if sum(active) > 1:
+                        ctx.hit('concurrent:stop-while-another-active')
+                        disturbed = 'another-mocker-was-stopped'
+                        if order[-1] != i:
+                            ctx.hit('concurrent:non-nested-stop-order')
+                    if entered[i]:
+                        mockers[i].__exit__(None, None, None)
+                    else:
+                        mockers[i].stop()
+                    active[i] = False
+                    order.remove(i)
+                    models[i].clear()
+                elif name == 'reset':
+                    mockers[i].reset()
+                    models[i].clear()
+                    if sum(active) - active[i] >= 1:
+                        ctx.hit('concurrent:reset-while-another-active')
+                        disturbed = 'another-mocker-was-reset'
+                elif name == 'add':
+                    _, _, ep, m, kind, once = op
+                    tag += 1
+                    mockers[i].add(ep, m, once=once, **patch_value(kind, tag))
+                    models[i].patches[ep].setdefault(m, []).append({'kind': kind, 'tag': tag, 'once': once})
+                    if any(active[j] and j != i and models[j].patches[ep].get(m) for j in range(n)) and active[i]:
+                        ctx.hit('concurrent:same-pair-patched-on-two-active-mockers')
+                elif name == 'remove':
+                    _, _, ep, m = op
+                    if not models[i].patches[ep].get(m):
+                        ctx.skip('remove-of-unpatched-method')
+                        continue
+                    mockers[i].remove(ep, m)
+                    models[i].patches[ep].pop(m, None)
+                elif name != 'call':
+                    raise KeyError(name)
+            except Exception as e:
+                ctx.violation(f'{name}-raises:{type(e).__name__}:concurrent-mockers', 'concurrent:' + name, cls, exception=e, **wit)
+                return
+            if name == 'call':
+                _, _, ep, elems = op
+                if not active[i]:
+                    ctx.skip('call-through-an-inactive-mocker')
+                    continue
+                if sum(active) >= 2:
+                    ctx.hit('concurrent:two-mockers-active-at-a-call')
+                if sum(active) >= 3:
+                    ctx.hit('concurrent:three-mockers-active-at-a-call')
+                if any(active[j] and j != i and models[j].patches[ep].get(m) and models[i].patches[ep].get(m)
+                       for j in range(n) for m, _, _ in elems):
+                    ctx.hit('concurrent:call-while-same-pair-patched-elsewhere')
+                    disturbed = 'a-call-went-through-another-mocker'
+                single = len(elems) == 1
+                reqs = [{'jsonrpc': '2.0', 'id': rid, 'method': m, **({'params': p} if p else {})} for m, p, rid in elems]
+                text = json.dumps(reqs[0] if single else reqs)
+                n_real = [len(x) for x in real_logs]
+                st, out = clientside.outcome_of(lambda: clients[i][ep]._request(text, False), is_async[i])
+                wit.update(request=text, through_mocker=i, outcome=[st, out])
+                others_reached = [j for j in range(n) if j != i and len(real_logs[j]) != n_real[j]]
+                if others_reached:
+                    ctx.violation('call-reached-the-transport-of-another-mocker\'s-client', 'concurrent:reply', cls, **wit)
+                    return
+                if not models[i].patched(ep):
+                    if setup[i][1]:
+                        if st != 'ret' or len(real_logs[i]) != n_real[i] + 1 or real_logs[i][-1] != text \
+                                or out != json.dumps({'real': [i, len(real_logs[i])]}):
+                            ctx.violation('unpatched-endpoint-not-passed-through:concurrent-mockers', 'concurrent:passthrough', cls,
+                                          patches_of_every_mocker=[x.patches for x in models], **wit)
+                            return
+                    elif st != 'exc' or not isinstance(out, ConnectionRefusedError):
+                        ctx.violation('unpatched-endpoint-not-refused:concurrent-mockers', 'concurrent:refusal', cls,
+                                      patches_of_every_mocker=[x.patches for x in models], **wit)
+                        return
+                else:
+                    if len(real_logs[i]) != n_real[i]:
+                        ctx.violation('patched-endpoint-reached-the-real-transport:concurrent-mockers', 'concurrent:reply', cls, **wit)
+                        return
+                    if st != 'ret' or not isinstance(out, str):
+                        ctx.violation(f'patched-call-raised:{type(out).__name__}:concurrent-mockers', 'concurrent:reply', cls, **wit)
+                        return
+                    try:
+                        doc = strictjson.decode(out)
+                    except strictjson.NotJson:
+                        ctx.violation('reply-not-json:concurrent-mockers', 'concurrent:reply', cls, **wit)
+                        return
+                    want = models[i].answer(ep, elems)
+                    prob = _reply_problem(want, doc, single)
+                    if prob:
+                        ctx.violation(prob + ':concurrent-mockers', 'concurrent:reply', cls, expected=want,
+                                      patches_of_every_mocker=[x.patches for x in models], **wit)
+                        return
+            # ---- after EVERY operation: the records of every active mocker are its own
+            for j in range(n):
+                if not active[j]:
+                    continue
+                if disturbed in ('another-mocker-was-stopped', 'another-mocker-was-reset') and j != i:
+                    ctx.hit('concurrent:records-checked-after-another-mocker-stopped-or-reset')
+                for e in ENDPOINTS:
+                    for m in METHODS:
+                        want_calls = models[j].calls[e].get(m, [])
+                        stub = mockers[j].calls.get(e, {}).get(('2.0', m))
+                        got_calls = [(list(c.args), dict(c.kwargs)) for c in stub.call_args_list] if stub is not None else []
+                        if got_calls != want_calls:
+                            how = 'records-lost' if len(got_calls) < len(want_calls) else \
+                                'foreign-calls-recorded' if len(got_calls) > len(want_calls) else 'other-arguments'
+                            ctx.violation(f'recorded-calls-differ:concurrent-mockers:{how}' + (f':after-{disturbed}' if disturbed and j != i else ''),
+                                          'concurrent:calls', cls, mocker=j, endpoint=e, method=m, expected=want_calls, recorded=got_calls,
+                                          answered_by_every_mocker=[x.calls for x in models], **wit)
+                            return
+        ctx.ok(f'concurrent:{n}-mockers:len{min(len(ops), 10)}', cls, sample={'setup': setup, 'history': ops})
+    finally:
+        for i in reversed(order):
+            try:
+                mockers[i].stop()
+            except Exception:
+                pass
+
+
+def run_concurrent_backends(ctx, outer, same_pair, stop_first, url):
+    """the two fixtures' mockers (requests and aiohttp backend, built the way pjrpc_requests_mocker / pjrpc_aiohttp_mocker
+    build them) active in one test: calls through either real client are answered and recorded by ITS mocker only"""
+    import importlib
+    try:
+        from pjrpc.client.integrations.pytest import PjRpcAiohttpMocker, PjRpcRequestsMocker
+        rq = importlib.import_module('pjrpc.client.backend.requests')
+        ah = importlib.import_module('pjrpc.client.backend.aiohttp')
+    except Exception as e:
+        ctx.skip(f'backend-not-importable:{type(e).__name__}')
+        return
+    cls = ('concurrent-backends', outer, same_pair, stop_first, url)
+    wit = dict(outer=outer, same_pair=same_pair, stopped_first=stop_first, url=url)
+    ctx.hit('concurrent:library-backends')
+    mk = {'requests': PjRpcRequestsMocker(), 'aiohttp': PjRpcAiohttpMocker()}
+    inner = 'aiohttp' if outer == 'requests' else 'requests'
+    meth = {'requests': 'ma', 'aiohttp': 'ma' if same_pair else 'mb'}
+    want = {'requests': [], 'aiohttp': []}
+    live = []
+
+    def call(which, *args):
+        if which == 'requests':
+            st, out = clientside.outcome_of(lambda: rq.Client(url).call(meth[which], *args), False)
+        else:
+            async def adrive():
+                client = ah.Client(url)
+                try:
+                    return await client.call(meth[which], *args)
+                finally:
+                    await client.close()
+            st, out = clientside.outcome_of(adrive, True)
+        want[which].append((list(args), {}))
+        if st != 'ret' or out != f'{which}-answer':
+            ctx.violation('patched-endpoint-of-a-library-backend-not-answered-by-its-patches:concurrent-mockers'
+                          + (f':raises-{type(out).__name__}' if st == 'exc' else ''), 'concurrent-backends', cls, through=which,
+                          outcome=[st, out], **wit)
+            return False
+        return True
+
+    def records_ok(after):
+        for which in live:
+            stub = mk[which].calls.get(url, {}).get(('2.0', meth[which]))
+            got = [(list(c.args), dict(c.kwargs)) for c in stub.call_args_list] if stub is not None else []
+            if got != want[which]:
+                how = 'records-lost' if len(got) < len(want[which]) else 'foreign-calls-recorded' if len(got) > len(want[which]) else 'other-arguments'
+                ctx.violation(f'recorded-calls-differ:concurrent-mockers:{how}:library-backends', 'concurrent-backends', cls, mocker=which,
+                              expected=want[which], recorded=got, after=after, **wit)
+                return False
+        return True
+
+    try:
+        for which in (outer, inner):
+            mk[which].__enter__()
+            live.append(which)
+            mk[which].add(url, meth[which], result=f'{which}-answer')
+        ok = call(outer, 1) and call(inner, 2) and records_ok('one call each') and call(outer, 3, 'x') and records_ok('three calls')
+        if not ok:
+            return
+        first = outer if stop_first == 'outer' else inner
+        mk[first].__exit__(None, None, None)
+        live.remove(first)
+        if not records_ok(f'the {first} mocker left its with-block'):
+            return
+        if not (call(live[0], 4) and records_ok('a call after the other mocker had gone')):
+            return
+        ctx.ok('concurrent-backends', cls, sample=wit)
+    finally:
+        for which in reversed(live):
+            try:
+                mk[which].stop()
+            except Exception:
+                pass
+
+
 ERROR_CODES = [-32700, -32600, -32601, -32602, -32603, -32000, 4001, 0, -32050]
 ERROR_MESSAGES = ['age must be positive', '', 'Invalid params', 'm\u00e9ssage']
 ERROR_DATA = ['__absent__', None, {'field': 'age'}, [1]]
@@ -611,6 +917,83 @@ def gen(ctx):
         yield from emit(once + [['call', ep, [['ma', [1], 1], ['mb', [2], 2]]], ['call', ep, [['mb', [3], 3]]], ['call', ep, [['ma', [3], 4]]]])
         yield from emit(once + [['call', ep, [['ma', [1], 1]]], ['call', ep, [['ma', [3], 3]]]])
         yield from emit(once + [['call', ep, [['mb', [1], 1]]], ['remove', ep, 'ma'], ['call', ep, [['ma', [3], 3]]]])
+    yield from gen_concurrent(ctx)
 
 
-KINDS = {'history': run_history, 'backend': run_backend, 'backend_passthrough': run_backend_passthrough, 'client_error': run_client_error, 'client_calls': run_client_calls}
+CONCURRENT_SETUPS = [[['MSync', False], ['MAsync', False]], [['MSync', True], ['MSync2', False]], [['MAsync', False], ['MAsync2', True]],
+                     [['MAsync', True], ['MSync', True]], [['MSync', False], ['MAsync', False], ['MSync2', False]],
+                     [['MAsync2', False], ['MSync2', True], ['MAsync', False]]]
+
+
+def gen_concurrent(ctx):
+    rng = ctx.rng
+    ids = [1, 7, 0, 'x']
+
+    def a_call(i):
+        ep = 'ep1' if rng.random() < 0.7 else 'ep2'
+        r = rng.random()
+        if r < 0.6:
+            elems = [[rng.choice(METHODS) if rng.random() < 0.4 else 'ma', rng.choice([[1, 'a'], {'k': 1}, [], [i]]), rng.choice(ids)]]
+        else:
+            elems = [[rng.choice(METHODS), rng.choice([[1], {'z': 2}, [i, 5]]), q + 1] for q in range(rng.randint(2, 3))]
+        return ['call', i, ep, elems]
+
+    def an_add(i):
+        ep = 'ep1' if rng.random() < 0.7 else 'ep2'
+        return ['add', i, ep, 'ma' if rng.random() < 0.6 else 'mb', rng.choice(['result', 'error', 'callback']), rng.random() < 0.25]
+
+    for _ in range(ctx.pick(1200, 60000)):
+        setup = rng.choice(CONCURRENT_SETUPS)
+        n = len(setup)
+        first = list(range(n))
+        rng.shuffle(first)
+        ops = [['start', i, rng.choice(['with', 'start'])] for i in first]
+        for i in range(n):
+            if rng.random() < 0.8:
+                ops.append(an_add(i))
+        for _ in range(rng.randint(3, 9)):
+            i = rng.randrange(n)
+            r = rng.random()
+            if r < 0.5:
+                ops.append(a_call(i))
+            elif r < 0.72:
+                ops.append(an_add(i))
+            elif r < 0.82:
+                ops.append(['stop', i])
+            elif r < 0.90:
+                ops.append(['reset', i])
+            elif r < 0.95:
+                ops.append(['start', i, rng.choice(['with', 'start'])])
+            else:
+                ops.append(['remove', i, rng.choice(ENDPOINTS), rng.choice(METHODS)])
+        if ops[-1][0] != 'call':
+            ops.append(a_call(rng.randrange(n)))
+        yield 'concurrent', dict(setup=setup, ops=ops)
+    # crafted: the same pair patched on every mocker, calls through each, one stopped / reset / restarted while the others go on
+    for setup in CONCURRENT_SETUPS:
+        n = len(setup)
+        for form in ('with', 'start'):
+            for ender in ('stop', 'reset'):
+                for victim in range(n):
+                    other = (victim + 1) % n
+                    ops = [['start', i, form] for i in range(n)] + [['add', i, 'ep1', 'ma', 'result', False] for i in range(n)]
+                    ops += [['call', i, 'ep1', [['ma', [i, 'p'], i + 1]]] for i in range(n)] + [['call', other, 'ep1', [['ma', {'k': 9}, 7]]]]
+                    ops += [[ender, victim], ['call', other, 'ep1', [['ma', [5], 5]]]]
+                    if ender == 'stop':
+                        ops += [['start', victim, form], ['add', victim, 'ep1', 'ma', 'callback', False],
+                                ['call', victim, 'ep1', [['ma', [6], 6], ['ma', [7], 7]]], ['call', other, 'ep1', [['ma', [8], 8]]]]
+                    yield 'concurrent', dict(setup=setup, ops=ops)
+        # different pairs on each mocker: nothing is shared to begin with
+        ops = [['start', i, 'with'] for i in range(n)] + [['add', i, ENDPOINTS[i % 2], METHODS[(i // 2) % 2], 'result', False] for i in range(n)]
+        ops += [['call', i, ENDPOINTS[i % 2], [[METHODS[(i // 2) % 2], [i], 1]]] for i in range(n)]
+        ops += [['stop', i] for i in reversed(range(n))]
+        yield 'concurrent', dict(setup=setup, ops=ops)
+    for outer in ('requests', 'aiohttp'):
+        for same_pair in (True, False):
+            for stop_first in ('inner', 'outer'):
+                for url in URLS[:ctx.pick(2, 4)]:
+                    yield 'concurrent_backends', dict(outer=outer, same_pair=same_pair, stop_first=stop_first, url=url)
+
+
+KINDS = {'history': run_history, 'backend': run_backend, 'backend_passthrough': run_backend_passthrough, 'client_error': run_client_error, 'client_calls': run_client_calls,
+         'concurrent': run_concurrent, 'concurrent_backends': run_concurrent_backends}
